@@ -74,6 +74,69 @@ pub fn tensor_vec(values: &[Fr]) -> (r: Vec<Fr>)
         }
 //@end
 
+// ark_std::log2 as a specification function: the least r with x <= 2^r  (assumed contract in shim/std.rs: log2_ceil)
+pub open spec fn is_log2c(x: usize, r: nat) -> bool { r <= 64 && x <= p2(r) && (x > 1 ==> p2((r - 1) as nat) < x) && (x <= 1 ==> r == 0) }
+// the split position sp = ceil(log2(left_len)) and the two Lagrange bases
+pub open spec fn mlt_rel(point: Seq<Fr>, left_len: usize, l: Seq<Fr>, r: Seq<Fr>, sp: nat) -> bool {
+    is_log2c(left_len, sp) && sp <= point.len()
+    && fviews(l) == tensor_spec(fviews(point.subrange(0, sp as int)), sp)
+    && fviews(r) == tensor_spec(fviews(point.subrange(sp as int, point.len() as int)), (point.len() - sp) as nat)
+}
+#[verifier::external_body] pub fn vec_fr_clone(v: &Vec<Fr>) -> (r: Vec<Fr>) ensures r@ == v@ { unimplemented!() }
+#[verifier::external_body] pub fn slice_to(v: &Vec<Fr>, k: usize) -> (r: &[Fr]) ensures k <= v@.len(), r@ == v@.subrange(0, k as int) { unimplemented!() }          // &v[..k]  (k > len aborts)
+#[verifier::external_body] pub fn slice_from(v: &Vec<Fr>, k: usize) -> (r: &[Fr]) ensures k <= v@.len(), r@ == v@.subrange(k as int, v@.len() as int) { unimplemented!() }   // &v[k..]
+pub struct MultilinearLigero;
+impl MultilinearLigero {
+//@fn id=multilinearligero.point_to_vec file=poly-commit/src/linear_codes/multilinear_ligero/mod.rs scope="impl<F, C, P, H> LinearEncode<F, C, P, H> for MultilinearLigero<F, C, P, H>" name=point_to_vec props=C08
+    fn point_to_vec(point: Vec<Fr>) -> (r: Vec<Fr>)
+    ensures
+        r@ == point@,   // name=multilinearligero.point_to_vec.identity props=C08
+//@body
+//@end
+//@fn id=multilinearligero.tensor file=poly-commit/src/linear_codes/multilinear_ligero/mod.rs scope="impl<F, C, P, H> LinearEncode<F, C, P, H> for MultilinearLigero<F, C, P, H>" name=tensor props=C13,C01
+    fn tensor(point: &Vec<Fr>, left_len: usize, _right_len: usize) -> (r: (Vec<Fr>, Vec<Fr>))
+    requires
+        point@.len() < 63,
+    ensures
+        // the point is split after ceil(log2(left_len)) coordinates; each half becomes its multilinear Lagrange basis
+        // the point is split after ceil(log2(left_len)) coordinates (fewer coordinates: abort); each half becomes its multilinear Lagrange basis
+        exists|sp: nat| #[trigger] mlt_rel(point@, left_len, r.0@, r.1@, sp),   // name=multilinearligero.tensor.lagrange_bases_of_the_two_halves_of_the_point props=C13,C01,C17
+//@body
+//@rw 1 /let point: Vec<F> = Self::point_to_vec\(point\.clone\(\)\);/ => let pv__: Vec<Fr> = Self::point_to_vec(vec_fr_clone(point));
+//@rw 1 /log2\(left_len\) as usize/ => log2_ceil(left_len) as usize
+//@rw 1 /&point\[\.\.split\]/ => slice_to(&pv__, split)
+//@rw 1 /&point\[split\.\.\]/ => slice_from(&pv__, split)
+//@rw 1 /\(tensor_vec\(left\), tensor_vec\(right\)\)/ => { let l__ = tensor_vec(left); let r__ = tensor_vec(right); let res__ = (l__, r__); proof { assert(mlt_rel(point@, left_len, res__.0@, res__.1@, split as nat)); } res__ }
+//@after start
+        let ghost point0 = point@;
+//@end
+}
+pub struct MultilinearBrakedown;
+impl MultilinearBrakedown {
+//@fn id=multilinearbrakedown.point_to_vec file=poly-commit/src/linear_codes/multilinear_brakedown/mod.rs scope="impl<F, C, P, H> LinearEncode<F, C, P, H> for MultilinearBrakedown<F, C, P, H>" name=point_to_vec props=C08
+    fn point_to_vec(point: Vec<Fr>) -> (r: Vec<Fr>)
+    ensures
+        r@ == point@,   // name=multilinearbrakedown.point_to_vec.identity props=C08
+//@body
+//@end
+//@fn id=multilinearbrakedown.tensor file=poly-commit/src/linear_codes/multilinear_brakedown/mod.rs scope="impl<F, C, P, H> LinearEncode<F, C, P, H> for MultilinearBrakedown<F, C, P, H>" name=tensor props=C13,C01
+    fn tensor(point: &Vec<Fr>, left_len: usize, _right_len: usize) -> (r: (Vec<Fr>, Vec<Fr>))
+    requires
+        point@.len() < 63,
+    ensures
+        // the point is split after ceil(log2(left_len)) coordinates; each half becomes its multilinear Lagrange basis
+        // the point is split after ceil(log2(left_len)) coordinates (fewer coordinates: abort); each half becomes its multilinear Lagrange basis
+        exists|sp: nat| #[trigger] mlt_rel(point@, left_len, r.0@, r.1@, sp),   // name=multilinearbrakedown.tensor.lagrange_bases_of_the_two_halves_of_the_point props=C13,C01,C17
+//@body
+//@rw 1 /let point: Vec<F> = Self::point_to_vec\(point\.clone\(\)\);/ => let pv__: Vec<Fr> = Self::point_to_vec(vec_fr_clone(point));
+//@rw 1 /log2\(left_len\) as usize/ => log2_ceil(left_len) as usize
+//@rw 1 /&point\[\.\.split\]/ => slice_to(&pv__, split)
+//@rw 1 /&point\[split\.\.\]/ => slice_from(&pv__, split)
+//@rw 1 /\(tensor_vec\(left\), tensor_vec\(right\)\)/ => { let l__ = tensor_vec(left); let r__ = tensor_vec(right); let res__ = (l__, r__); proof { assert(mlt_rel(point@, left_len, res__.0@, res__.1@, split as nat)); } res__ }
+//@after start
+        let ghost point0 = point@;
+//@end
+}
 //@struct file=poly-commit/src/linear_codes/data_structures.rs name=BrakedownPCParams drop=a_mats,b_mats,leaf_hash_param,two_to_one_hash_param,col_hash_params
 impl BrakedownPCParams {
 //@fn id=brakedown.distance file=poly-commit/src/linear_codes/brakedown.rs scope="impl<F, C, H> LinCodeParametersInfo<C, H> for BrakedownPCParams<F, C, H>" name=distance props=C13
